@@ -123,9 +123,9 @@ def checker_factory(modname, fopts_list):
             u0 = getattr(sw, 'unknowns', 0)
             paths, status = sw.closure(p, run)
             oid = 'len=%s%s' % (n, (' ' + repr(fopts)) if fopts else '')
-            if status != 'ok':
+            partial = status != 'ok'       # the paths explored within the budget are still examined: what they refute is reported
+            if partial:
                 sw.undecided.append(dict(n=n, why='closure budget'))
-                continue
             ok = True
             for ctx, r in paths:
                 extra = None
@@ -156,7 +156,8 @@ def checker_factory(modname, fopts_list):
                 desc = native_violation(modname, x, fopts, opts, today)
                 sw.finding('format changes the number', what.split(' (')[0], input=x, opts=opts, fopts=fopts, today=today,
                            approx=ctx.approx or bool(getattr(ctx, 'soft', None)), real=desc, reproduced=desc is not None)
-            sw.obligations.append((oid, ('undecided' if getattr(sw, 'unknowns', 0) > u0 else 'proved') if ok else 'refuted', '%d closure paths' % len(paths)))
+            if not (partial and ok):
+                sw.obligations.append((oid, ('undecided' if getattr(sw, 'unknowns', 0) > u0 else 'proved') if ok else 'refuted', '%d closure paths' % len(paths)))
             if len(sw.samples) < 1 and paths:
                 sw.samples.append(dict(n=n, closure_paths=len(paths), format_opts=fopts))
     return checker
